@@ -62,6 +62,11 @@ pub struct ClientCase {
     /// every listener stays open while the tunnel is down and every accepted connection is served by the next successful connection
     #[serde(default)]
     pub extra_locals: Vec<u8>,
+    /// after an orderly close (`ServeThenClose`: Close frames exchanged) the server does NOT close the TCP connection (it lingers, as a
+    /// busy or sloppy server or a middlebox may): the client's connection task then waits for an end-of-file that does not come. The
+    /// client need not notice while it is idle, but the next local connection must still be served - by a new tunnel connection.
+    #[serde(default)]
+    pub linger_tcp: bool,
 }
 
 pub fn rt() -> &'static tokio::runtime::Runtime {
@@ -182,9 +187,10 @@ async fn serve_mux(ws: tokio_tungstenite::WebSocketStream<DynStream>, how: Attem
     }
 }
 
-async fn fake_server(listener: TcpListener, script: Vec<Attempt>, obs: Arc<Mutex<Obs>>, t0: Instant, tcp_reset: bool, tls: Option<Arc<rustls::ServerConfig>>) {
+async fn fake_server(listener: TcpListener, script: Vec<Attempt>, obs: Arc<Mutex<Obs>>, t0: Instant, tcp_reset: bool, tls: Option<Arc<rustls::ServerConfig>>, linger_tcp: bool) {
     let mut n = 0usize;
     let mut held: Vec<tokio::net::TcpStream> = vec![];
+    let mut lingering: Vec<std::net::TcpStream> = vec![];
     loop {
         let Ok((mut stream, _)) = listener.accept().await else { continue };
         let how = script.get(n).copied().unwrap_or(*script.last().unwrap());
@@ -234,6 +240,22 @@ async fn fake_server(listener: TcpListener, script: Vec<Attempt>, obs: Arc<Mutex
             Attempt::ServeThenClose(_) | Attempt::ServeThenDrop(_) | Attempt::Healthy | Attempt::HandshakeThenSilent | Attempt::SilentThenDrop(_) => {
                 let obs2 = obs.clone();
                 let tls2 = tls.clone();
+                // a lingering server keeps the TCP connection open after the WebSocket close handshake: a duplicate of the socket
+                // outlives the connection object (no FIN is sent while it exists)
+                let mut stream = stream;
+                if linger_tcp && matches!(how, Attempt::ServeThenClose(_)) {
+                    if let Ok(stdsock) = stream.into_std() {
+                        if let Ok(dup) = stdsock.try_clone() {
+                            lingering.push(dup);
+                        }
+                        stream = match tokio::net::TcpStream::from_std(stdsock) {
+                            Ok(s) => s,
+                            Err(_) => continue,
+                        };
+                    } else {
+                        continue;
+                    }
+                }
                 tokio::spawn(async move {
                     let stream: DynStream = match &tls2 {
                         None => Box::new(stream),
@@ -423,7 +445,7 @@ pub async fn run_client_case(c: &ClientCase) -> Result<RunOut, String> {
     let listener = TcpListener::bind("127.0.0.1:0").await.map_err(|e| format!("bind: {e}"))?;
     let port = listener.local_addr().unwrap().port();
     let obs = Arc::new(Mutex::new(Obs::default()));
-    let server = tokio::spawn(fake_server(listener, c.script.clone(), obs.clone(), t0, c.tcp_reset, if c.tls { Some(tls_fix().cfg.clone()) } else { None }));
+    let server = tokio::spawn(fake_server(listener, c.script.clone(), obs.clone(), t0, c.tcp_reset, if c.tls { Some(tls_fix().cfg.clone()) } else { None }, c.linger_tcp));
     let uds = tmp_dir().join(format!("c19-{}-{}.sock", std::process::id(), UNIQ.fetch_add(1, Ordering::Relaxed)));
     let _ = std::fs::remove_file(&uds);
     let udp_port = {
@@ -663,6 +685,7 @@ pub fn judge(c: &ClientCase, r: &RunOut) -> Result<Vec<&'static str>, (String, S
             let fail_at = match prev {
                 Attempt::AcceptAndStall => Some(at[i - 1].0 + 1000),
                 Attempt::HandshakeThenSilent => None, // depends on when a stream request timed out
+                Attempt::ServeThenClose(_) if c.linger_tcp => None, // the client notices at its next stream request
                 _ => at[i - 1].2,
             };
             if let Some(f) = fail_at {
@@ -851,7 +874,7 @@ pub fn check_many_stalls(n: &u32) -> Outcome {
     let n = *n as usize;
     let mut script = vec![Attempt::AcceptAndStall; n];
     script.push(Attempt::Healthy);
-    let c = ClientCase { script, max_retry_count: 0, max_retry_interval: 20, local_after_attempt: None, local_delay_ms: 0, udp_burst: 0, tcp_reset: false, tls: false, handshake_timeout_ms: 50, extra_locals: vec![] };
+    let c = ClientCase { script, max_retry_count: 0, max_retry_interval: 20, local_after_attempt: None, local_delay_ms: 0, udp_burst: 0, tcp_reset: false, tls: false, handshake_timeout_ms: 50, extra_locals: vec![], linger_tcp: false };
     // descriptors: what is open now + room for a handful of connections
     let open_now = std::fs::read_dir("/proc/self/fd").map(|d| d.count()).unwrap_or(64) as u64;
     let mut old = libc::rlimit { rlim_cur: 0, rlim_max: 0 };
@@ -901,35 +924,35 @@ fn client_case_plain() -> impl Strategy<Value = ClientCase> {
             }
             let la = la.map(|x| x.min(script.len() as u8));
             script.push(Attempt::Healthy);
-            ClientCase { script, max_retry_count: mrc, max_retry_interval: mri, local_after_attempt: la, local_delay_ms: ld, udp_burst: burst, tcp_reset, tls, handshake_timeout_ms: 0, extra_locals: vec![] }
+            ClientCase { script, max_retry_count: mrc, max_retry_interval: mri, local_after_attempt: la, local_delay_ms: ld, udp_burst: burst, tcp_reset, tls, handshake_timeout_ms: 0, extra_locals: vec![], linger_tcp: false }
         }),
         // the same with one to four further local connections through the other listeners (TCP remote, SOCKS5, HTTP CONNECT, Unix again)
         4 => (prop::collection::vec(attempt(), 1..4), 200u64..800, 0u8..4, 0u16..200, prop::collection::vec(0u8..4, 1..5), any::<bool>(), prop::bool::weighted(0.3)).prop_map(|(mut script, mri, la, ld, extra_locals, tcp_reset, tls)| {
             let la = la.min(script.len() as u8 - 1);
             script.push(Attempt::Healthy);
-            ClientCase { script, max_retry_count: 0, max_retry_interval: mri, local_after_attempt: Some(la), local_delay_ms: ld, udp_burst: 0, tcp_reset, tls, handshake_timeout_ms: 0, extra_locals }
+            ClientCase { script, max_retry_count: 0, max_retry_interval: mri, local_after_attempt: Some(la), local_delay_ms: ld, udp_burst: 0, tcp_reset, tls, handshake_timeout_ms: 0, extra_locals, linger_tcp: false }
         }),
         // several stream requests pending on a silent or dropped connection
-        2 => (200u64..800, 0u16..100, prop::collection::vec(0u8..4, 1..4), prop_oneof![Just(Attempt::HandshakeThenSilent), (30u16..400).prop_map(Attempt::SilentThenDrop)]).prop_map(|(mri, ld, extra_locals, first)| ClientCase { script: vec![first, Attempt::Healthy], max_retry_count: 0, max_retry_interval: mri, local_after_attempt: Some(0), local_delay_ms: ld, udp_burst: 0, tcp_reset: false, tls: false, handshake_timeout_ms: 0, extra_locals }),
+        2 => (200u64..800, 0u16..100, prop::collection::vec(0u8..4, 1..4), prop_oneof![Just(Attempt::HandshakeThenSilent), (30u16..400).prop_map(Attempt::SilentThenDrop)]).prop_map(|(mri, ld, extra_locals, first)| ClientCase { script: vec![first, Attempt::Healthy], max_retry_count: 0, max_retry_interval: mri, local_after_attempt: Some(0), local_delay_ms: ld, udp_burst: 0, tcp_reset: false, tls: false, handshake_timeout_ms: 0, extra_locals, linger_tcp: false }),
         // a stalled stream request: handshake, then silence; the local connection must be served by the next connection
-        1 => (200u64..1000, 0u16..200).prop_map(|(mri, ld)| ClientCase { script: vec![Attempt::HandshakeThenSilent, Attempt::Healthy], max_retry_count: 0, max_retry_interval: mri, local_after_attempt: Some(0), local_delay_ms: ld, udp_burst: 0, tcp_reset: false, tls: false, handshake_timeout_ms: 0, extra_locals: vec![] }),
+        1 => (200u64..1000, 0u16..200).prop_map(|(mri, ld)| ClientCase { script: vec![Attempt::HandshakeThenSilent, Attempt::Healthy], max_retry_count: 0, max_retry_interval: mri, local_after_attempt: Some(0), local_delay_ms: ld, udp_burst: 0, tcp_reset: false, tls: false, handshake_timeout_ms: 0, extra_locals: vec![], linger_tcp: false }),
         // a stream request is pending (never answered) when the connection is dropped: it must be parked and served by the next connection
-        2 => (200u64..1000, 30u16..400, 0u16..20, any::<bool>()).prop_map(|(mri, d, ld, tcp_reset)| ClientCase { script: vec![Attempt::SilentThenDrop(d), Attempt::Healthy], max_retry_count: 0, max_retry_interval: mri, local_after_attempt: Some(0), local_delay_ms: ld, udp_burst: 0, tcp_reset, tls: false, handshake_timeout_ms: 0, extra_locals: vec![] }),
+        2 => (200u64..1000, 30u16..400, 0u16..20, any::<bool>()).prop_map(|(mri, d, ld, tcp_reset)| ClientCase { script: vec![Attempt::SilentThenDrop(d), Attempt::Healthy], max_retry_count: 0, max_retry_interval: mri, local_after_attempt: Some(0), local_delay_ms: ld, udp_burst: 0, tcp_reset, tls: false, handshake_timeout_ms: 0, extra_locals: vec![], linger_tcp: false }),
         // giving up after max_retry_count
         2 => (1u32..=4, 200u64..700, prop::bool::weighted(0.2)).prop_map(|(mrc, mri, stall)| {
             let mut script = vec![Attempt::AcceptAndDrop; mrc as usize + 2];
             if stall {
                 script[0] = Attempt::AcceptAndStall;
             }
-            ClientCase { script, max_retry_count: mrc, max_retry_interval: mri, local_after_attempt: None, local_delay_ms: 0, udp_burst: 0, tcp_reset: false, tls: false, handshake_timeout_ms: 0, extra_locals: vec![] }
+            ClientCase { script, max_retry_count: mrc, max_retry_interval: mri, local_after_attempt: None, local_delay_ms: 0, udp_burst: 0, tcp_reset: false, tls: false, handshake_timeout_ms: 0, extra_locals: vec![], linger_tcp: false }
         }),
         // never giving up with max_retry_count = 0
-        1 => (200u64..500).prop_map(|mri| ClientCase { script: vec![Attempt::AcceptAndDrop; 6], max_retry_count: 0, max_retry_interval: mri, local_after_attempt: None, local_delay_ms: 0, udp_burst: 0, tcp_reset: false, tls: false, handshake_timeout_ms: 0, extra_locals: vec![] }),
+        1 => (200u64..500).prop_map(|mri| ClientCase { script: vec![Attempt::AcceptAndDrop; 6], max_retry_count: 0, max_retry_interval: mri, local_after_attempt: None, local_delay_ms: 0, udp_burst: 0, tcp_reset: false, tls: false, handshake_timeout_ms: 0, extra_locals: vec![], linger_tcp: false }),
         // non-retryable answer
         1 => (prop::collection::vec(Just(Attempt::AcceptAndDrop), 0..3), 200u64..800).prop_map(|(mut script, mri)| {
             script.push(Attempt::Http403);
             script.push(Attempt::Healthy);
-            ClientCase { script, max_retry_count: 0, max_retry_interval: mri, local_after_attempt: None, local_delay_ms: 0, udp_burst: 0, tcp_reset: false, tls: false, handshake_timeout_ms: 0, extra_locals: vec![] }
+            ClientCase { script, max_retry_count: 0, max_retry_interval: mri, local_after_attempt: None, local_delay_ms: 0, udp_burst: 0, tcp_reset: false, tls: false, handshake_timeout_ms: 0, extra_locals: vec![], linger_tcp: false }
         }),
     ]
 }
@@ -938,7 +961,7 @@ pub fn run(ctx: &Ctx, rep: &mut Report) {
     rep.rule = "G1: Backoff::new(initial,max,mult,max_count) over all small tuples (initial,max in 0..6 units, mult 0..3, max_count 0..4) x all advance/reset sequences of length <= 8 (exhaustive) + random larger, against the closed form min(initial*mult^k, max). \
                 G2: the real client (client_main_inner, Unix-socket TCP remote) against a scripted fake server on loopback: per connection attempt {accept and drop, accept and stall the upgrade, 403, serve then orderly Close after d ms, serve then abrupt drop after d ms, handshake then silence, handshake then silence then drop after d ms, healthy}, max_retry_count 0..7, max_retry_interval 200..1000 ms (1600/3200 in the directed reset-after-success family), \
                 handshake/channel timeout 1 s, a local connection opened at a generated moment (in a third of the cases together with 1-4 further local connections through the client's other listeners: a TCP remote, the SOCKS5 listener, the HTTP CONNECT listener, the Unix-socket remote again - each must complete its own proxy handshake and be echoed through the next successful connection), 0/10/70/300 datagrams sent into the client's UDP remote right after the first attempt (while disconnected when the script starts with a failure). Oracle: gap between a visible failure and the next attempt >= the reference delay (hard) and <= delay + 0.3 s (confirmed by re-run), shortest delay again after any success, a new attempt after orderly Close / drop / stall, exactly max_retry_count+1 attempts then MaxRetryCountReached (never for 0), immediate end on the non-retryable answer, \
-                the local connection is echoed through the next successful connection; the fake server sends every datagram it receives straight back, and the reply to a datagram that the client took in while the tunnel was down and forwarded later must reach the socket that sent it (not demanded after 7 s - the client forgets idle UDP clients - nor in the last second of a case; 10 % loss tolerated). Non-trivial = a script with >= 2 failures and a success, or a local connection made while disconnected. Distinct = distinct case value."
+                the local connection is echoed through the next successful connection (also when the server closed the WebSocket in an orderly way but left the TCP connection open, so that the client's old connection task never sees an end-of-file); the fake server sends every datagram it receives straight back, and the reply to a datagram that the client took in while the tunnel was down and forwarded later must reach the socket that sent it (not demanded after 7 s - the client forgets idle UDP clients - nor in the last second of a case; 10 % loss tolerated). Non-trivial = a script with >= 2 failures and a success, or a local connection made while disconnected. Distinct = distinct case value."
         .into();
     rep.assumptions = vec![
         "real sockets and the real tokio scheduler: interleavings and timing are sampled; lower bounds on delays are hard, upper bounds and 'never arrives' verdicts are reported only if an isolated re-run of the same case shows them again (otherwise the case counts as inconclusive)".into(),
@@ -959,8 +982,18 @@ pub fn run(ctx: &Ctx, rep: &mut Report) {
             let k = 3 + (i % 3) as usize;
             let mut script = vec![Attempt::HandshakeThenSilent; k];
             script.push(Attempt::Healthy);
-            ClientCase { script, max_retry_count: 2 + (i / 3) as u32, max_retry_interval: 3200, local_after_attempt: Some(0), local_delay_ms: 20, udp_burst: 0, tcp_reset: false, tls: i % 2 == 1, handshake_timeout_ms: 0, extra_locals: vec![] }
+            ClientCase { script, max_retry_count: 2 + (i / 3) as u32, max_retry_interval: 3200, local_after_attempt: Some(0), local_delay_ms: 20, udp_burst: 0, tcp_reset: false, tls: i % 2 == 1, handshake_timeout_ms: 0, extra_locals: vec![], linger_tcp: false }
         },
+        check,
+    );
+    // the server closes the WebSocket in an orderly way but leaves the TCP connection open; a local connection made afterwards must be
+    // served by a new tunnel connection (the old connection task never sees an end-of-file)
+    ctx.enumerate(
+        rep,
+        "close-frame-then-tcp-lingers",
+        4,
+        2,
+        |i| ClientCase { script: vec![Attempt::ServeThenClose(if i % 2 == 0 { 40 } else { 150 }), Attempt::Healthy], max_retry_count: 0, max_retry_interval: 400, local_after_attempt: Some(0), local_delay_ms: 450, udp_burst: 0, tcp_reset: false, tls: i / 2 == 1, handshake_timeout_ms: 0, extra_locals: if i % 2 == 0 { vec![] } else { vec![2] }, linger_tcp: true },
         check,
     );
     // many consecutive timeouts with few descriptors to spare (runs alone: the limit is process-wide while it lasts)
@@ -975,7 +1008,7 @@ pub fn run(ctx: &Ctx, rep: &mut Report) {
         |i| {
             let served = if i % 2 == 0 { Attempt::ServeThenClose(40 + 20 * (i as u16 / 4)) } else { Attempt::ServeThenDrop(40 + 20 * (i as u16 / 4)) };
             let mri = if (i / 2) % 2 == 0 { 3200 } else { 1600 };
-            ClientCase { script: vec![Attempt::AcceptAndDrop, Attempt::AcceptAndDrop, Attempt::AcceptAndDrop, served, Attempt::AcceptAndDrop, Attempt::Healthy], max_retry_count: 0, max_retry_interval: mri, local_after_attempt: Some(4), local_delay_ms: 10, udp_burst: if i % 2 == 0 { 200 } else { 0 }, tcp_reset: (i / 2) % 2 == 1, tls: i % 4 == 3, handshake_timeout_ms: 0, extra_locals: vec![] }
+            ClientCase { script: vec![Attempt::AcceptAndDrop, Attempt::AcceptAndDrop, Attempt::AcceptAndDrop, served, Attempt::AcceptAndDrop, Attempt::Healthy], max_retry_count: 0, max_retry_interval: mri, local_after_attempt: Some(4), local_delay_ms: 10, udp_burst: if i % 2 == 0 { 200 } else { 0 }, tcp_reset: (i / 2) % 2 == 1, tls: i % 4 == 3, handshake_timeout_ms: 0, extra_locals: vec![], linger_tcp: false }
         },
         check,
     );
